@@ -38,7 +38,8 @@ ARGS = {
     "Time": [("lit", "time", "12:00:00"), ("call", "time", (), (ident("t1"),))],
     "Duration": [("lit", "duration", "P1D"), ident("dur")],
     "Geo": [("lit", "geo", "POINT(1 2)"), ident("location")],
-    "ListInt": [("list", (("lit", "int", "1"), ("lit", "int", "2"))), ident("nums")],
+    "ListInt": [("list", (("lit", "int", "1"), ("lit", "int", "2"))), ident("nums"),
+                ("call", "concat", (), (("list", (("lit", "int", "1"),)), ("list", (("lit", "int", "3"),))))],
     "ListStr": [("list", (("lit", "str", "a"),)), ident("names")],
     "Bool": [("lit", "bool", "true"), ident("b1"), ("cmp", "eq", ident("i1"), ("lit", "int", "1"))],
 }
@@ -133,7 +134,33 @@ def check_literal_rejection(kind, text):
     return None
 
 
+def check_backend_rejection(case):
+    """The ORM backends type-check the arguments of contains/startswith/endswith: a literal of a kind
+    other than String as the search text must be rejected with ArgumentTypeException."""
+    from odata_query import exceptions
+    from .. import db_orm
+    text = "%s(s1, %s)" % (case["fn"], case["text"])
+    outcomes = {}
+    from odata_query.django import apply_odata_query as dj
+    M = db_orm.django_models()
+    S = db_orm.sqlalchemy_models()
+    from odata_query.sqlalchemy import apply_odata_core, apply_odata_query as sa_orm
+    for name, fn in (("django", lambda: dj(M.Item.objects, text).query.sql_with_params()),
+                     ("sqlalchemy-orm", lambda: sa_orm(S.sa.select(S.Item), text).compile(S.engine)),
+                     ("sqlalchemy-core", lambda: apply_odata_core(S.sa.select(S.Item.__table__), text).compile(S.engine))):
+        try:
+            fn()
+        except exceptions.ArgumentTypeException:
+            continue
+        except Exception as e:
+            return ("backend-typecheck:%s:other-exception:%s" % (name, type(e).__name__), "%r -> %s: %s" % (text, type(e).__name__, str(e)[:200]))
+        return ("backend-typecheck:%s:accepts-wrong-literal" % name, "%r accepted although the search text is a %s literal" % (text, case["kind"]))
+    return None
+
+
 def check_case(case):
+    if case.get("mode") == "backend-literal":
+        return check_backend_rejection(case)
     if case.get("mode") == "literal":
         return check_literal_rejection(case["kind"], case["text"])
     t = from_json(case["term"])
@@ -192,6 +219,11 @@ def exhaustive_cases():
             ("list", "(1, 2)")]
     for kind, text in lits:
         yield {"mode": "literal", "kind": kind, "text": text}
+    for kind, text in lits:
+        if kind == "str":
+            continue
+        for fn in ("contains", "startswith", "endswith"):
+            yield {"mode": "backend-literal", "kind": kind, "text": text, "fn": fn}
 
 
 TYPES = ["Int", "Real", "Str", "Bool", "DateTime", "Date", "Time"]
@@ -209,9 +241,9 @@ def plan(tier, seed, scale):
 def run_task(task, seed, acc):
     def one(case):
         r = check_case(case)
-        if case.get("mode") == "literal":
+        if case.get("mode") in ("literal", "backend-literal"):
             acc.case(key=digest(case), nontrivial=True, sample=case)
-            acc.cls("literal_rejection")
+            acc.cls("literal_rejection" if case["mode"] == "literal" else "backend_literal_rejection")
         else:
             t = from_json(case["term"])
             nt = t[0] in ("call", "bin", "cmp", "bool", "un")
